@@ -38,7 +38,7 @@ m = {
     "hooks": {
         "guard": "verif",
         "enable": "go test -c -tags verif (harness module with replace => /repo)",
-        "baseline_off_cmd": "cd /repo && go test -vet=off -count=1 ./...",
+        "baseline_off_cmd": "cd /repo && go test -p 1 -vet=off -count=1 ./...",
         "source_commits": hooks_commits,
         "add_only": True,
     },
